@@ -4,7 +4,7 @@ CONSTANTS
   Slates = {"s1"}
   Amounts = {1000}
   NFund = 2
-  MaxH = 7
+  MaxH = 6
   MaxLog = 2
   UseLate = FALSE
   UseTtl = FALSE
